@@ -72,10 +72,23 @@ class FakeSock:
         self.wire += data[:n]
         return n
 
+    def recv_into(self, buffer, nbytes=0, flags=0):
+        data = self.recv(nbytes or len(buffer))
+        buffer[:len(data)] = data
+        return len(data)
+
+    def sendall(self, data, flags=0):
+        while data:
+            n = self.send(data)
+            data = data[n:]
+
     def fileno(self):
         return -1
 
     def close(self):
+        pass
+
+    def shutdown(self, how):
         pass
 
 
